@@ -76,6 +76,17 @@ def weightList (w : Weights) (nCells : Nat) : Except Err (List (Option (List Rat
 
 /-! ### values -/
 
+/-- `[f(x) for x in l]` where `f` may raise: the first error wins -/
+def mapE {α β} (f : α → Except Err β) : List α → Except Err (List β)
+  | [] => .ok []
+  | a :: as =>
+    match f a with
+    | .error e => .error e
+    | .ok b =>
+      match mapE f as with
+      | .error e => .error e
+      | .ok bs => .ok (b :: bs)
+
 /-- `[v] if isinstance(v, (float, int)) else v`, then `len(v)` must work -/
 def rowOf : Val → Except Err (List Rat)
   | .int i => .ok [(i : Rat)]
@@ -101,7 +112,7 @@ def linearOut (rows : List (List Rat)) (w : List Rat) (S : Nat) : List Rat :=
 
 /-- `_linear_blend` -/
 def linearBlend (vals : List Val) (w : List Rat) : Except Err Val :=
-  match vals.mapM rowOf with
+  match mapE rowOf vals with
   | .error e => .error e
   | .ok rows =>
     let S := maxLen rows
@@ -148,7 +159,7 @@ def mixtureBlend (vals : List Val) (w : List Rat) (idx : List Nat) : Except Err 
     | .error e => .error e
     | .ok S =>
       if !choiceOk w then .error .valueError else
-      match vals.mapM samplesOf with
+      match mapE samplesOf vals with
       | .error e => .error e
       | .ok rows =>
         -- boolean mask of length S applied to every v_j, chosen or not
